@@ -130,3 +130,10 @@ func (v VerifChannel) InstanceObjs() map[uint32][]any {
 	}
 	return m
 }
+
+// ResetReceiveSequence forgets the sequence number of the chunk accepted last, as on a fresh channel
+// (for harnesses which reuse one receiving channel for independent cases).
+func (v VerifChannel) ResetReceiveSequence() { v.S.rcvSequenceNumberSet = false }
+
+// ReceiveSequence returns the sequence number of the chunk accepted last and whether there was one.
+func (v VerifChannel) ReceiveSequence() (uint32, bool) { return v.S.rcvSequenceNumber, v.S.rcvSequenceNumberSet }
